@@ -123,7 +123,7 @@ CHECKS["C09"] = dict(
     note=_NOTE, ref="DESIGN.md section 6, C09")
 CHECKS["C11"] = dict(
     technique="TLA+ spec of the porcelain status format and the dirty check (BVStatus, MC_C11) model-checked with TLC + trace validation of committing `update` runs on real git working trees",
-    text=("Design level: four files (two with a version pattern, one named like a status line) x the nine states git reports x --allow-dirty: the spec's fixed-column parser recovers "
+    text=("Design level: four files (two with a version pattern, one named like a status line) x the eleven states git reports (incl. RM, AM) x --allow-dirty: the spec's fixed-column parser recovers "
           "status and path(s) of every line incl. leading blanks and renames; NoSweep, DirtyBlocksUnlessAllowed, UntrackedOthersInert. Conformance: each status is produced by real git "
           "operations (so the status text is git's own), `update --patch` runs with commit on; the trace spec reads the recorded porcelain lines itself and checks that a blocked update "
           "aborts before modifying anything, that untracked unrelated files never block, and that the bump commit holds only the version change of pattern files."),
